@@ -9,7 +9,7 @@ from .. import common, pipeline, reflex
 
 ID = "C06"
 LEVEL = "fault_enumeration"
-RULE = ("8 valid base modules (one with code behind a top-level return()) (one of them without any doccomment or documentable command) x every character offset outside comments and outside the interior of quoted/bracket "
+RULE = ("9 valid base modules (one with code behind a top-level return(), one starting with a byte order mark) (one of them without any doccomment or documentable command) x every character offset outside comments and outside the interior of quoted/bracket "
         "arguments x 12 fault kinds (stray quote, backslash+alnum, backslash at EOF, unterminated '#[[' / '#[=[', extra "
         "'(' / ')', deleted '(' / ')', bare word in three spellings), singly and (thorough) in pairs; a mutant is judged only if the "
         "reference tokenizer rejects it and - wherever CMake can see the fault - cmake itself rejects it too.  Oracle: "
@@ -24,6 +24,7 @@ BASES = {
     "argument_forms": "#[[[\n# forms\n#]]\nset(V a\;b \"q \\\"x\\\" ;\" [[br ack]] [=[l1]]]=] (c (d)) ${r}/p -Dk=v)\nif(NOT (A AND B))\nendif()\n",
     "plain_commands": "set(V 1)\nif(V)\n  message(STATUS \"v is ${V}\")\nendif()\nforeach(i a b)\n  list(APPEND L ${i})\nendforeach()\n",
     "after_return": "set(A 1)\nif(A)\n  return()\nendif()\nreturn()\n#[[[\n# Never defined at run time.\n#]]\nfunction(late a)\n  message(STATUS \"late ${a}\")\nendfunction()\nset(B 2)\n",
+    "bom_header": "\ufeffcmake_minimum_required(VERSION 3.20)\ninclude_guard()\n#[[[\n# Doc.\n#]]\nset(A 1)\n",
     "no_final_newline": "# leading comment\noption(OPT \"help\" ON)\nmacro(m x)\nendmacro()\n#[[ block ]]\nadd_test(NAME n COMMAND c)",
 }
 
@@ -47,7 +48,7 @@ message(STATUS "REACHED-END")
 def faults_at(text, pos):
     """(kind, mutant) for one position"""
     out = []
-    ins = [("quote", '"'), ("bad_escape", "\\q"), ("open_bracket_comment0", "#[["), ("open_bracket_comment1", "#[=["),
+    ins = [("quote", '"'), ("bad_escape", "\\q"), ("bad_escape_upper", "\\T"), ("open_bracket_comment0", "#[["), ("open_bracket_comment1", "#[=["),
            ("lparen", "("), ("rparen", ")"), ("bare_word", " stray "), ("bare_at", " @PKG_INIT@ "), ("bare_ref", " ${stray} ")]
     for k, s in ins:
         out.append((k, text[:pos] + s + text[pos:]))
@@ -420,7 +421,7 @@ def run(ctx):
     ctx.sweep(cli_many, many, space="CLI: n faulty inputs / odd ancestor directories", selftest=0, chunk=1, isolate=False)
     lj = [lst[len(lst) // 2] + (c,) for k, lst in sorted(byk.items()) if k[0] == "flat_sets" for c in LOGCFG]
     ctx.sweep(cli_logging, lj, space="CLI under other logging configurations", selftest=0, chunk=1, isolate=False)
-    ctx.cov["bounds"] = {"bases": list(BASES), "fault_kinds": 12, "cli_confirmations": len(cli), "logging_configurations": list(LOGCFG),
+    ctx.cov["bounds"] = {"bases": list(BASES), "fault_kinds": 13, "cli_confirmations": len(cli), "logging_configurations": list(LOGCFG),
                          "inputs_per_command_line": [1, 2, 256] if quick else [1, 2, 3, 255, 256, 257, 512],
                          "ancestor_directory_names": ANCESTORS}
     ctx.assumptions += ["a mutant that cmake accepts (legacy unquoted forms, faults that re-pair with later text) is not judged",
